@@ -333,9 +333,25 @@ def quiescent(eng, spa):
     return q
 
 
-def connect_threaded_spa(eng, sim, max_iterations=40000):
+def connect_threaded_spa(eng, sim, max_iterations=40000, eager=0):
+    """eager > 0: the socket thread is scheduled right away, for that many iterations, every time the connecting thread queues a
+    datagram inside start_connect() (a pre-emption the real threads allow at any instant)"""
     spa = make_threaded_spa(eng, sim)
     exit_event = spa._exit_event
+    if eager:
+        orig_queue_send = spa.queue_send
+
+        def eager_queue_send(*a, **k):
+            r = orig_queue_send(*a, **k)
+            spa.queue_send = orig_queue_send
+            try:
+                run_until(eng, lambda: False, max_iterations=int(eager))
+            finally:
+                spa.queue_send = eager_queue_send
+            return r
+        spa.queue_send = eager_queue_send
     spa.start_connect()  # open() re-creates the exit event and an inert thread; keeps our socket
+    if eager:
+        spa.queue_send = orig_queue_send
     ok = run_until(eng, lambda: spa._is_connected and not eng.inbox and not spa._send_handlers, max_iterations)
     return spa, ok
